@@ -710,6 +710,11 @@ func Universe(tier string) []*Decl {
 			}
 		}
 	}
+	// Block L: large shapes (explored with partial-order reduction): k input-free roots, m middle providers that
+	// each combine the first two roots, a sink that takes everything; chains; balanced trees; two-level fans.
+	for _, l := range LargeShapes(thorough) {
+		add(l, "large")
+	}
 	if thorough {
 		// two toggles on n<=3 shapes
 		for _, b := range basesC {
@@ -770,6 +775,129 @@ func Universe(tier string) []*Decl {
 				}
 			}
 		}
+	}
+	return out
+}
+
+// custom builds a declaration from explicit requirement lists: provider i requires the providers req[i].
+func custom(req [][]int, async func(i int) bool, fallible func(i int) bool, note string) *Decl {
+	n := len(req)
+	d := &Decl{Name: "Init", Target: fmt.Sprintf("*T%d", n-1), Structs: map[string][]Field{}, SetVar: map[int]bool{}, SetNest: map[int]int{}, Large: true}
+	for i := 0; i < n; i++ {
+		p := &Prov{ID: i, Kind: Func, Provides: []string{fmt.Sprintf("*T%d", i)}, Async: async(i), Fallible: fallible(i)}
+		for _, j := range req[i] {
+			p.Requires = append(p.Requires, fmt.Sprintf("*T%d", j))
+		}
+		d.Provs = append(d.Provs, p)
+	}
+	d.Note = "large " + note
+	return d
+}
+
+// LargeShapes enumerates block L.
+func LargeShapes(thorough bool) []*Decl {
+	var out []*Decl
+	never := func(int) bool { return false }
+	ks, ms := []int{8, 9}, []int{0, 3}
+	if thorough {
+		ks, ms = []int{5, 6, 7, 8, 9, 10}, []int{0, 1, 2, 3}
+	}
+	for _, k := range ks {
+		for _, m := range ms {
+			var req [][]int
+			for i := 0; i < k; i++ {
+				req = append(req, nil)
+			}
+			for j := 0; j < m; j++ {
+				req = append(req, []int{0, 1})
+			}
+			var all []int
+			for i := 0; i < k+m; i++ {
+				all = append(all, i)
+			}
+			req = append(req, all)
+			sink := k + m
+			for _, sinkAsync := range []bool{false, true} {
+				for _, syncRoot := range []int{-1, 0, k - 1} {
+					if !thorough && syncRoot == k-1 {
+						continue
+					}
+					as := func(i int) bool {
+						if i == sink {
+							return sinkAsync
+						}
+						return i != syncRoot
+					}
+					note := fmt.Sprintf("fan k=%d m=%d sinkAsync=%v syncRoot=%d", k, m, sinkAsync, syncRoot)
+					out = append(out, custom(req, as, never, note))
+					if m > 0 || thorough {
+						// every provider fallible: error paths with many goroutines
+						out = append(out, custom(req, as, func(int) bool { return true }, note+" fallible"))
+					}
+				}
+			}
+		}
+	}
+	// chains of n providers, Async marks alternating / all / none-but-first
+	ns := []int{8}
+	if thorough {
+		ns = []int{6, 7, 8, 9, 10, 12}
+	}
+	for _, n := range ns {
+		var req [][]int
+		for i := 0; i < n; i++ {
+			if i == 0 {
+				req = append(req, nil)
+			} else {
+				req = append(req, []int{i - 1})
+			}
+		}
+		out = append(out, custom(req, func(i int) bool { return i%2 == 0 }, never, fmt.Sprintf("chain n=%d alternating", n)))
+		out = append(out, custom(req, func(i int) bool { return true }, never, fmt.Sprintf("chain n=%d all async", n)))
+		out = append(out, custom(req, func(i int) bool { return true }, func(i int) bool { return i%3 == 1 }, fmt.Sprintf("chain n=%d all async, every third fallible", n)))
+	}
+	// balanced binary in-trees: 4 leaves (7 providers), 8 leaves (15 providers, thorough)
+	leaves := []int{4}
+	if thorough {
+		leaves = []int{4, 8}
+	}
+	for _, l := range leaves {
+		var req [][]int
+		level := []int{}
+		for i := 0; i < l; i++ {
+			req = append(req, nil)
+			level = append(level, i)
+		}
+		for len(level) > 1 {
+			var next []int
+			for i := 0; i+1 < len(level); i += 2 {
+				req = append(req, []int{level[i], level[i+1]})
+				next = append(next, len(req)-1)
+			}
+			level = next
+		}
+		out = append(out, custom(req, func(int) bool { return true }, never, fmt.Sprintf("tree leaves=%d all async", l)))
+		out = append(out, custom(req, func(i int) bool { return i < l }, never, fmt.Sprintf("tree leaves=%d leaves async", l)))
+		out = append(out, custom(req, func(int) bool { return true }, func(i int) bool { return i < l }, fmt.Sprintf("tree leaves=%d all async, leaves fallible", l)))
+	}
+	// two-level fan: r roots, combiner j takes roots j and j+1, the sink takes every combiner
+	rs := []int{6}
+	if thorough {
+		rs = []int{4, 5, 6, 7, 8}
+	}
+	for _, r := range rs {
+		var req [][]int
+		for i := 0; i < r; i++ {
+			req = append(req, nil)
+		}
+		var combs []int
+		for j := 0; j+1 < r; j++ {
+			req = append(req, []int{j, j + 1})
+			combs = append(combs, len(req)-1)
+		}
+		req = append(req, combs)
+		out = append(out, custom(req, func(int) bool { return true }, never, fmt.Sprintf("two-level fan r=%d all async", r)))
+		out = append(out, custom(req, func(i int) bool { return i < r }, never, fmt.Sprintf("two-level fan r=%d roots async", r)))
 	}
 	return out
 }
